@@ -19,6 +19,12 @@ from a standard parser — are only produced on request (`feature=`), one per do
 violation is attributable: one-signer (F11), one-response-bundle (F12), timestamp (F13),
 equal-expiration / equal-times (F8), space-in-attrless-start-tag, gt-in-attribute-value
 (and space-in-end-tag, which is outside the property's plain form and used by C13 only).
+
+`tree_from_xml()` turns any well-formed document (the archived, genuinely signed KSRs / SKRs) into the same
+tree, and `add_duplicates()` gives one element of a tree two or three sibling versions (DUP_KINDS: <Key> /
+<Signature> with equal keyIdentifier, repeated <Signer>, <SignatureAlgorithm> with equal number, bundles
+with equal id; differing in chosen fields or verbatim) with `group_orders()` / `shuffle_children()` for
+every order of them.
 """
 
 from __future__ import annotations
@@ -519,3 +525,237 @@ def expected_j(doc: dict[str, Any]) -> dict[str, Any]:
     if doc["kind"] == "response":
         out["kskPolicy"] = policy_j(doc["KSK"])
     return out
+
+
+# --------------------------------------------------------------------------------------
+# any well-formed document -> tree (so that archived, genuinely signed files can be re-laid-out, permuted
+# and given duplicate siblings like generated ones)
+# --------------------------------------------------------------------------------------
+
+STRING_LEAVES = ("TypeCovered", "SignersName")  # xsd:string: whitespace is data
+
+
+def tree_from_xml(text: str) -> El:
+    """the element tree of a document as a standards-conforming parser sees it (leaf texts of the
+    whitespace-collapsing schema types are stripped: that is their value)"""
+    import xml.etree.ElementTree as ET
+
+    def conv(e: Any) -> El:
+        kids = [conv(c) for c in e]
+        collapsible = e.tag not in STRING_LEAVES
+        txt = "" if kids else (e.text or "")
+        if collapsible:
+            txt = txt.strip(" \t\r\n")
+        return El(e.tag, list(e.attrib.items()), kids, txt, collapsible)
+
+    return conv(ET.fromstring(text.encode("utf-8")))
+
+
+def node_at(t: El, path: list[int]) -> El:
+    for i in path:
+        t = t.children[i]
+    return t
+
+
+def paths_of(t: El, name: str) -> list[list[int]]:
+    """paths of all elements called `name`"""
+    out: list[list[int]] = []
+
+    def walk(n: El, path: list[int]) -> None:
+        if n.name == name:
+            out.append(path)
+        for i, c in enumerate(n.children):
+            walk(c, path + [i])
+
+    walk(t, [])
+    return out
+
+
+# --------------------------------------------------------------------------------------
+# duplicates among siblings: two or three sibling elements that agree in their identifying attribute /
+# some fields and differ in others, or are repeated verbatim.  The schema (ksr.rnc) has no uniqueness
+# constraint on keyIdentifier, bundle ids or algorithm numbers: all of this is schema-conformant.
+# --------------------------------------------------------------------------------------
+
+
+def rfc4034_key_tag(flags: int, protocol: int, algorithm: int, public_key: bytes) -> int:
+    """RFC 4034 appendix B (transcribed; algorithm 1 is not generated)"""
+    rdata = bytes([(flags >> 8) & 0xFF, flags & 0xFF, protocol & 0xFF, algorithm & 0xFF]) + public_key
+    ac = 0
+    for i, b in enumerate(rdata):
+        ac += b if i & 1 else b << 8
+    ac += (ac >> 16) & 0xFFFF
+    return ac & 0xFFFF
+
+
+def _leaf(e: El, name: str) -> El | None:
+    for c in e.children:
+        if c.name == name:
+            return c
+    return None
+
+
+def _set_leaf(e: El, name: str, f: Any) -> None:
+    c = _leaf(e, name)
+    if c is not None:
+        c.text = f(c.text)
+
+
+def _set_attr(e: El, name: str, f: Any) -> None:
+    e.attrs = [(k, f(v) if k == name else v) for k, v in e.attrs]
+
+
+def _int(s: str) -> int:
+    return int(s.strip(" \t\r\n"))
+
+
+def _bump(n: int, mod: int = 65536) -> Any:
+    return lambda s: str((_int(s) + n) % mod)
+
+
+def _other_material(n: int) -> Any:
+    """the same length and header, other octets near the end (another modulus / another point)"""
+
+    def f(s: str) -> str:
+        raw = bytearray(base64.b64decode(s.strip(" \t\r\n")))
+        if not raw:
+            return base64.b64encode(bytes([n])).decode()
+        raw[-1 - (n % max(1, min(8, len(raw))))] ^= 0x10 << (n % 3)
+        return base64.b64encode(bytes(raw)).decode()
+
+    return f
+
+
+def _respell(s: str) -> str:
+    """another lexical form of the same xsd:nonNegativeInteger (a leading zero)"""
+    return "0" + s.strip(" \t\r\n").lstrip("+")
+
+
+def _fix_tag(k: El) -> None:
+    """make keyTag the RFC 4034 tag of the key as it now stands"""
+    try:
+        tag = rfc4034_key_tag(_int(_leaf(k, "Flags").text), _int(_leaf(k, "Protocol").text), _int(_leaf(k, "Algorithm").text), base64.b64decode(_leaf(k, "PublicKey").text.strip(" \t\r\n")))  # type: ignore[union-attr]
+    except Exception:  # noqa: BLE001
+        return
+    _set_attr(k, "keyTag", lambda _v: str(tag))
+
+
+def _shift_time(days: int) -> Any:
+    def f(s: str) -> str:
+        from datetime import datetime, timedelta, timezone
+
+        t = s.strip(" \t\r\n")
+        while t.endswith("Z"):
+            t = t[:-1]
+        dt = datetime.fromisoformat(t)
+        if dt.tzinfo is None:
+            dt = dt.replace(tzinfo=timezone.utc)
+        us = (dt - datetime(1970, 1, 1, tzinfo=timezone.utc)) // timedelta(microseconds=1)
+
+        class _R:  # fmt_dt wants a PRNG only to choose the spelling
+            @staticmethod
+            def randrange(_n: int) -> int:
+                return 1
+
+        return fmt_dt(us + days * DAY, _R(), 1)
+
+    return f
+
+
+# kind -> (element that is duplicated, modifier applied to the n-th copy (n = 1, 2); None = verbatim, where it applies)
+DUP_KINDS: dict[str, tuple[str, Any, str]] = {
+    # <Key> with equal keyIdentifier
+    "key-same-id-other-material": ("Key", lambda c, n: _set_leaf(c, "PublicKey", _other_material(n)), "any"),
+    "key-same-id-other-material-right-tag": ("Key", lambda c, n: (_set_leaf(c, "PublicKey", _other_material(n)), _fix_tag(c)), "any"),
+    "key-same-material-other-tag": ("Key", lambda c, n: _set_attr(c, "keyTag", _bump(n)), "any"),
+    "key-same-material-other-flags": ("Key", lambda c, n: _set_leaf(c, "Flags", lambda s: str(_int(s) ^ (1 if n == 1 else 128))), "any"),
+    "key-same-material-other-flags-right-tag": ("Key", lambda c, n: (_set_leaf(c, "Flags", lambda s: str(_int(s) ^ (1 if n == 1 else 128))), _fix_tag(c)), "any"),
+    "key-same-id-other-ttl": ("Key", lambda c, n: _set_leaf(c, "TTL", _bump(n, 2**31)), "any"),
+    "key-verbatim": ("Key", None, "any"),
+    "key-verbatim-respelled": ("Key", lambda c, n: (_set_attr(c, "keyTag", _respell), _set_leaf(c, "Flags", _respell)) if n == 1 else (_set_leaf(c, "TTL", _respell),), "any"),
+    # <Signature> with equal keyIdentifier
+    "signature-same-id-other-data": ("Signature", lambda c, n: _set_leaf(c, "SignatureData", _other_material(n)), "any"),
+    "signature-same-id-other-keytag": ("Signature", lambda c, n: _set_leaf(c, "KeyTag", _bump(n)), "any"),
+    "signature-same-id-other-expiration": ("Signature", lambda c, n: _set_leaf(c, "SignatureExpiration", _shift_time(n)), "any"),
+    "signature-verbatim": ("Signature", None, "any"),
+    # <Signer> repeated
+    "signer-verbatim": ("Signer", None, "request"),
+    # <SignatureAlgorithm> with equal algorithm number
+    "algorithm-same-number-other-size": ("SignatureAlgorithm", lambda c, n: _set_attr(c.children[0], "size", lambda s: str(_int(s) + 1024 * n)), "any"),
+    "algorithm-same-number-other-exponent": ("SignatureAlgorithm", lambda c, n: _set_attr(c.children[0], "exponent", lambda s: str(_int(s) + 2 * n)), "rsa"),
+    "algorithm-verbatim": ("SignatureAlgorithm", None, "any"),
+    "algorithm-verbatim-respelled": ("SignatureAlgorithm", lambda c, n: _set_attr(c, "algorithm", _respell) if n == 1 else _set_attr(c.children[0], "size", _respell), "any"),
+    # bundles with equal id
+    "bundle-equal-id-other-times": ("Bundle", None, "any"),
+    "bundle-verbatim": ("Bundle", None, "any"),
+}
+
+
+def add_duplicates(tree: El, r: Any, kind: str, copies: int = 2) -> tuple[El, list[int], list[int]] | None:
+    """A copy of `tree` in which one element has `copies` (2 or 3) sibling versions as `kind` says, next to
+    each other.  Returns (tree, path of the parent, indices of the group among the parent's children), or
+    None where the kind does not apply to this document."""
+    name, mod, applies = DUP_KINDS[kind]
+    t = tree.copy()
+    req = t.children[0].name == "Request"
+    if applies == "request" and not req:
+        return None
+    if name == "Bundle":
+        paths = paths_of(t, "RequestBundle" if req else "ResponseBundle")
+    else:
+        paths = paths_of(t, name)
+    if name == "Signer" and not paths:
+        # no signer named: name one, then repeat it (naming signers does not touch what is signed)
+        bp = r.choice(paths_of(t, "RequestBundle"))
+        b = node_at(t, bp)
+        at = max((i for i, c in enumerate(b.children) if c.name in ("Inception", "Expiration")), default=-1) + 1
+        b.children.insert(at, El("Signer", [("keyIdentifier", "KC%05d" % r.randrange(100000))]))
+        paths = [bp + [at]]
+    if applies == "rsa":
+        paths = [p for p in paths if node_at(t, p).children and node_at(t, p).children[0].name == "RSA"]
+    if not paths:
+        return None
+    path = r.choice(paths)
+    parent = node_at(t, path[:-1])
+    i = path[-1]
+    orig = parent.children[i]
+    new: list[El] = []
+    for n in range(1, copies):
+        c = orig.copy()
+        if kind == "bundle-equal-id-other-times":
+            # the same id on a bundle of another period: every time in it moves by whole days
+            for leafname in ("Inception", "Expiration"):
+                _set_leaf(c, leafname, _shift_time(100 * n))
+            for s in c.children:
+                if s.name == "Signature":
+                    _set_leaf(s, "SignatureInception", _shift_time(100 * n))
+                    _set_leaf(s, "SignatureExpiration", _shift_time(100 * n))
+        elif mod is not None:
+            mod(c, n)
+        new.append(c)
+    parent.children[i + 1 : i + 1] = new
+    if name == "Signer" and r.random() < 0.5:
+        # sometimes with a different signer among them
+        parent.children.insert(i, El("Signer", [("keyIdentifier", "KC%05d" % r.randrange(100000))]))
+        i += 1
+    return t, path[:-1], list(range(i, i + copies))
+
+
+def group_orders(t: El, parent_path: list[int], idxs: list[int]) -> Iterator[tuple[str, El]]:
+    """every other order of the group members among their own places"""
+    for perm in itertools.permutations(range(len(idxs))):
+        if perm == tuple(range(len(idxs))):
+            continue
+        cp = t.copy()
+        p = node_at(cp, parent_path)
+        members = [p.children[i] for i in idxs]
+        for slot, k in zip(idxs, perm):
+            p.children[slot] = members[k]
+        yield ("group:" + "".join(map(str, perm)), cp)
+
+
+def shuffle_children(t: El, parent_path: list[int], r: Any) -> El:
+    """a copy with the children of ONE node in random order"""
+    cp = t.copy()
+    r.shuffle(node_at(cp, parent_path).children)
+    return cp
